@@ -191,6 +191,15 @@ def run(ctx):
                     return ('b', 'stdin') if sp == 'eq' else ('not', ('b', 'stdin'))
                 # the extension taken apart with std::path: `Path::new(input).extension() == Some("json")`
                 via_ext = any(x[0] == 'call' and short(x[1]) == 'extension' for a in e[2] for x in facts.walk(a))
+                if not via_ext:
+                    # ... bound to a local first (`let extension = Path::new(input).extension().and_then(OsStr::to_str);`)
+                    for a in e[2]:
+                        for x in facts.walk(a):
+                            if x[0] == 'var':
+                                for _, _, v_ in q.multi_def_values(f, x[1]):
+                                    if any(y[0] == 'call' and short(y[1]) == 'extension' for y in facts.walk(v_)) and \
+                                            any(y[0] == 'field' and y[2] == 'input' for y in facts.walk(v_)):
+                                        via_ext, on_input = True, True
                 if sp in ('eq', 'ne') and on_input and via_ext and consts and consts[-1] in ('json', 'efg'):
                     v_ = ('b', 'ext.' + consts[-1])
                     return v_ if sp == 'eq' else ('not', v_)
